@@ -20,11 +20,12 @@ func c01Specs() []*bfsSpec {
 			Depth: 5, DepthT: 7},
 		{Name: "c01-download-read", Cfg: worldCfg{Geom: "gtail", Peers: []peerCfg{{Fast: true, Ext: true, DontHave: 7}}, AutoDrain: true},
 			Setup: []string{"haveall:0", "unchoke:0", "ropen:0:81921"},
-			Alphabet: []string{"rread:0:40000", "rread:0:100", "rseek:0:16000", "rseek:0:40000", "tick", "ans:0:old:full", "ans:0:old:corrupt", "ans:0:old:long", "ans:0:new:full", "evict", "adv:2", "complete:1", "fail:0"},
+			Alphabet: []string{"rread:0:40000", "rread:0:100", "rseek:0:16000", "rseek:0:40000", "tick", "complete:0", "ans:0:old:full", "ans:0:old:corrupt", "ans:0:old:long", "ans:0:new:full", "evict", "adv:2", "complete:1", "fail:0"},
 			Depth: 5, DepthT: 7},
 		{Name: "c01-up-and-down", Cfg: worldCfg{Geom: "g2x2", Peers: []peerCfg{{Fast: true, Ext: true, DontHave: 7}, {Fast: true}}, Have: []int{0}, AutoDrain: true},
 			Setup: []string{"haveall:0", "unchoke:0", "want:1:1", "tick", "interested:1", "unchokepeer:1"},
-			Alphabet: []string{"ans:0:old:full", "ans:0:old:corrupt", "ans:0:new:full", "req:1:0:0:16384", "req:1:0:16384:16384", "req:1:1:0:16384", "stall:1", "resume:1", "advms:300", "tick", "evict"},
+			// (complete:1 makes the answers that are still outstanding late duplicates)
+			Alphabet: []string{"ans:0:old:full", "ans:0:old:corrupt", "ans:0:new:full", "complete:1", "req:1:0:0:16384", "req:1:0:16384:16384", "req:1:1:0:16384", "stall:1", "resume:1", "advms:300", "tick", "evict"},
 			Depth: 5, DepthT: 7},
 	}
 }
